@@ -28,6 +28,13 @@ def step (st : State) (line : String) : State × String :=
       | "PANIC" :: _ => "SKIP || FAILS panic"
       | "CRASH" :: _ => "SKIP || FAILS crash"
       | _ => "SKIP || HOLDS")
+  | "IMPLEQ" :: _ =>
+    -- two runs of the implementation compared by the harness (C14 behaviour equality, C19 determinism)
+    (st, match impl with
+      | ["OK"] => "SKIP || HOLDS"
+      | _ => "SKIP || FAILS implementation-runs-differ")
+  | "DESER" :: args => (st, handleDeser args impl)
+  | "TODEF" :: args => (st, handleToDef args impl)
   | "REF9" :: args => (st, handleEncV "9" st args impl)
   | "RT" :: args => (st, handleRoundTrip st args impl)
   | "BPE" :: args => (st, handlePiece st args impl)
